@@ -160,12 +160,14 @@ def gen_model(rng):
     lines = [{"kind": "top", "node": t} for t in tops] + [{"kind": "sub", "node": a} for nm in subl for a in subl[nm]]
     rng.shuffle(lines)
     for ln in lines:
-        ln["nums"] = (rng.choice([0, 2, "2.0", "0.0", 3]), round(rng.uniform(0.1, 2), 4), round(rng.uniform(0, 0.1), 4),
-                      rng.choice([0, 2, "2.0", "+2"]), round(rng.uniform(-3.1, 3.1), 4), round(rng.uniform(0, 0.1), 4))
+        mag = round(rng.uniform(0.1, 2), 4) if rng.random() < 0.88 else rng.choice(["4.2e-09", "1e-12", "7.5E-10", "3e-5", "1250.5"])      # also very small couplings
+        pha = round(rng.uniform(-3.1, 3.1), 4) if rng.random() < 0.88 else rng.choice(["1e-09", "-1e-10", "3.14159265", "0", "-3.1415926535", "6.5e-7"])   # phases next to 0 and pi
+        ln["nums"] = (rng.choice([0, 2, "2.0", "0.0", 3, "0.", "+0", "00"]), mag, round(rng.uniform(0, 0.1), 4),
+                      rng.choice([0, 2, "2.0", "+2", "0.0"]), pha, round(rng.uniform(0, 0.1), 4))
     params = []
     for i in range(rng.choice([0, 0, 1, 2, 4, 8])):
         nm = rng.choice(["D0_radius", "f_scatt", "IS_p1_", "s0_prod", "sA", "K(1)(1270)bar-_mass", "a(1)(1260)+_width", "x::y"]) + str(i)
-        params.append((nm, rng.choice([0, 2, 3, "2.0", "0.0", "-1"]), rng.choice(["0.0037559", "-0.39899", "1289.81", "2", "1e-3", "+0.5"]), rng.choice(["0", "0.557988", "1.5"])))
+        params.append((nm, rng.choice([0, 2, 3, "2.0", "0.0", "-1", "0.", "+0", "00"]), rng.choice(["0.0037559", "-0.39899", "1289.81", "2", "1e-3", "+0.5"]), rng.choice(["0", "0.557988", "1.5"])))
     consts = []
     for i in range(rng.choice([0, 0, 1, 2, 3])):
         consts.append((rng.choice(["a(1)(1260)+::Spline::Min", "K(1460)bar-::Spline::N", "K(1)(1270)bar-::Spline::Max", "Some::Const"]) + ("" if i == 0 or rng.random() < 0.3 else str(i)),
@@ -252,6 +254,7 @@ def expected(model):
         if ln["kind"] != "top":
             continue
         f1, a, da, f2, ph, dph = ln["nums"]
+        a, ph = float(a), float(ph)
         amp = complex(a, ph) if cart else cmath.rect(a, ph)
         groups.append({"strs": expand(ln["node"]), "amp": amp, "spin": ln["node"].spin, "ls": ln["node"].ls})
     params = [(nm, float(fl) > 0, float(v), float(e)) for nm, fl, v, e in model["params"]]
@@ -408,9 +411,26 @@ def gen_fourbody(rng, event_idx=None, picks=None, namps=None, dangle=True):
         top = ln["node"]
         idx = rng.randrange(len(top.kids))
         r = top.kids[idx]
-        if r.kids is not None and not any(x["kind"] == "sub" and x["node"].name == r.name for x in lines) \
-                and not any(q.name == r.name and q is not r for x in lines for q in resonances(x["node"])):
+        def same_decay(q):
+            return q.kids is not None and [k.name for k in q.kids] == [k.name for k in r.kids] and all(k.kids is None for k in q.kids) and all(k.kids is None for k in r.kids)
+
+        others = [q for x in lines for q in resonances(x["node"]) if q.name == r.name and q is not r]
+        share = bool(others) and all(same_decay(q) for q in others) and rng.random() < 0.7
+        if r.kids is not None and not any(x["kind"] == "sub" and x["node"].name == r.name for x in lines) and (not others or share):
             top.kids[idx] = Node(r.name)
+            if share:
+                # the same partial line referred to from several places (other amplitudes, or twice in one): each use gets the whole sub-line
+                def strip(n):
+                    if n.kids is None:
+                        return
+                    for i, k in enumerate(n.kids):
+                        if k.name == r.name and k.kids is not None:
+                            n.kids[i] = Node(r.name)
+                        else:
+                            strip(k)
+
+                for x in lines:
+                    strip(x["node"])
             lines.append({"kind": "sub", "node": r})
             if rng.random() < 0.5:
                 alt = Node(r.name, r.spin, ls_tag(rng, rng.choice(LS_KINDS)), [Node(k.name, k.spin, k.ls, k.kids) for k in r.kids])
